@@ -6,13 +6,17 @@ namespace SwimVerif.Machines.C02
 open SwimVerif
 
 /-- Agent side of a map lane (event queue, sync snapshots, write order). -/
+def mlLine (line : String) : String :=
+  -- `new hash` = a HashMap-backed lane: the same observable behaviour (take / drop sort the keys by structure)
+  if words line = ["new", "hash"] then "new" else line
+
 def ml : Machine where
   σ := ML.St
   init := {}
-  step := ML.stepLine
+  step := fun s line => ML.stepLine s (mlLine line)
   μ := ML.Mon
   minit := {}
-  mstep := fun m line out => m.step line out
+  mstep := fun m line out => m.step (mlLine line) out
 
 /-- The coalescing queue with epochs (agent `EventQueue`, runtime `MapOperationQueue`). -/
 def eq : Machine where
